@@ -573,16 +573,6 @@ int32_t psCRL_determineRevokedStatusBDT(psX509Cert_t *cert,
 
     if (crl)
     {
-        /* Not going to move along if the CRL has expired */
-        if (crl->expired)
-        {
-            cert->revokedStatus = CRL_CHECK_CRL_EXPIRED;
-#  ifdef USE_MULTITHREADING
-            psUnlockMutex(&g_crlTableLock);
-#  endif    /* USE_MULTITHREADING */
-            return cert->revokedStatus;
-        }
-
         /* If we now have a CRL that is not authenticated yet, let's see if
            if our subject happens to have a parent that we can try against.
            This case happens if a CRL for an child certificate was
@@ -596,7 +586,13 @@ int32_t psCRL_determineRevokedStatusBDT(psX509Cert_t *cert,
 
         /* test it and set the status */
         revoked = internalCrlIsRevoked(cert, crl, bdt);
-        if (revoked == 0 && crl->authenticated == 1)
+        if (crl->expired && !(revoked == 1 && crl->authenticated == 1))
+        {
+            /* An outdated CRL cannot clear a certificate (revocation not
+               tested), but a revocation it lists stays a revocation. */
+            cert->revokedStatus = CRL_CHECK_CRL_EXPIRED;
+        }
+        else if (revoked == 0 && crl->authenticated == 1)
         {
             cert->revokedStatus = CRL_CHECK_PASSED_AND_AUTHENTICATED;
 
